@@ -144,7 +144,10 @@ PywtC._wkey = staticmethod(_wkey_recording)
 
 
 def load_wavelet():
-    util = Mod(dict(resize=specs.spec_resize), "sigpy.util")
+    util_ns = base_ns()
+    src.load_module(linops.UTIL, util_ns)
+    util_ns.update(resize=specs.spec_resize)
+    util = Mod(util_ns, linops.UTIL)
     ns = base_ns(pywt=PywtC, util=util)
     src.load_module(WAVELET, ns)
     return Mod(ns, WAVELET)
@@ -165,7 +168,7 @@ def load_linop_with_real_wavelet():
 def wvariants(tier):
     out = []
     for r in (1, 2, 3):
-        axsets = [None, (-1,), (0,)] + ([(0, 1), (-2, -1)] if r >= 2 else []) + ([(0, 2)] if r == 3 else [])
+        axsets = [None, (-1,), (0,)] + ([(0, 1), (-2, -1), (1, 0), (-1, -2)] if r >= 2 else []) + ([(0, 2), (2, 0)] if r == 3 else [])
         for ax in axsets:
             for level in (None, "sym"):
                 if r == 3 and tier == "quick" and (level == "sym") and ax not in (None, (0, 2)):
